@@ -167,6 +167,42 @@ func (c *Cluster) execSynthStep(s *Step) {
 		for i := range c.syn.idx {
 			c.syn.idx[i] = -1
 		}
+	case "synth-fair":
+		// composite: N cycles of fair gossip - in every cycle every validator
+		// creates one event on top of every other validator's head (all ordered
+		// pairs) - after which everything created before must be committed (C06)
+		st := c.syn
+		if st == nil {
+			return
+		}
+		c.synFairFrom = len(c.dag.order)
+		c.synFairCycles = s.N
+		nv := len(st.heads)
+		mk := func(a, b int) {
+			op := ""
+			if b >= 0 {
+				op = st.heads[b]
+			}
+			st.ts++
+			ev := newEvent(c.nodes[a], st.idx[a]+1, st.heads[a], op, nil, nil, nil, st.ts)
+			signEvent(ev, c.nodes[a])
+			st.heads[a] = ev.Hex()
+			st.idx[a]++
+			c.dag.add(ev, 0, a)
+			c.stats.EventsCreated++
+		}
+		for a := 0; a < nv; a++ {
+			if st.heads[a] == "" {
+				mk(a, -1)
+			}
+		}
+		for k := 0; k < s.N; k++ {
+			for a := 0; a < nv; a++ {
+				for d := 1; d < nv; d++ {
+					mk(a, (a+d)%nv)
+				}
+			}
+		}
 	case "synth":
 		st := c.syn
 		if st == nil || s.A < 0 || s.A >= len(st.heads) || s.B >= len(st.heads) {
@@ -205,6 +241,26 @@ func (c *Cluster) execSynthStep(s *Step) {
 		st.ts += s.D
 		ev := newEvent(cr, st.idx[s.A]+1, st.heads[s.A], op, txs, itxs, nil, st.ts)
 		signEvent(ev, cr)
+		if s.Kind == "coin0" || s.Kind == "coin1" {
+			// grind the payload until the event's hash carries the wanted coin bit
+			// (what a validator that wants to prolong an election can do); the step
+			// keeps the payload found, so a replay does not grind again
+			want := s.Kind == "coin1"
+			base := append([]byte{}, s.Tx...)
+			for k := 0; k < 20000 && refMiddleBit(ev.Hex()) != want; k++ {
+				tx := append(append([]byte{}, base...), []byte(fmt.Sprintf("#%d", k))...)
+				ev = newEvent(cr, st.idx[s.A]+1, st.heads[s.A], op, [][]byte{tx}, itxs, nil, st.ts)
+				signEvent(ev, cr)
+				s.Tx = tx
+			}
+			if refMiddleBit(ev.Hex()) == want {
+				s.Kind = ""
+				c.stats.probe("synthetic-coin-bit-ground")
+				if !want {
+					c.stats.probe("synthetic-coin-bit-ground-false")
+				}
+			}
+		}
 		st.heads[s.A] = ev.Hex()
 		st.idx[s.A]++
 		c.dag.add(ev, 0, s.A)
@@ -248,6 +304,11 @@ func (c *Cluster) buildSynthDag(r *RNG) {
 	if r2 := NewRNG(Mix(c.seed, 0x6c656176)); r2.Bool(0.2) && os.Getenv("SIM_TEMPLATE_EXACT") == "" {
 		c.buildSynthLeaveDag(r2)
 		return
+	}
+	if r3 := NewRNG(Mix(c.seed, 0x64656570)); os.Getenv("SIM_TEMPLATE_EXACT") == "" && (c.cfg.Profile == "C06" || r3.Bool(0.15) || os.Getenv("SIM_DEEP_ONLY") != "") {
+		if c.buildSynthDeepDag(r3) {
+			return
+		}
 	}
 	n := []int{4, 4, 4, 5, 6, 7}[r.Intn(6)]
 	cycles := r.Range(8, 22)
@@ -694,4 +755,60 @@ func (c *Cluster) buildSynthJoinDag(r *RNG) {
 	for _, s := range c.playSteps(r, cur) {
 		c.execSynthStep(s)
 	}
+}
+
+// deepFairCycles: all-pairs cycles appended to a deep-election history. Once
+// every validator strongly sees every witness of the previous round all votes
+// of a normal round are equal and the next normal round decides: the
+// algorithm needs two to four rounds, i.e. about as many cycles.
+const deepFairCycles = 12
+
+// buildSynthDeepDag: a history in which one election stays undecided through
+// one or two coin rounds (found with the reference model under an adversarial
+// coin, realised by grinding the coin bits), followed by fair gossip among
+// all validators. false: the search found nothing deep enough.
+func (c *Cluster) buildSynthDeepDag(r *RNG) bool {
+	n := []int{4, 4, 4, 5, 5, 6}[r.Intn(6)]
+	want := []int{5, 6, 7, 9, 9, 10, 11}[r.Intn(7)]
+	var base []synthPlay
+	switch r.Intn(3) {
+	case 0:
+		base = synthPlays(r, n, r.Range(12, 18))
+	case 1:
+		base = gossipPlays(r, n, r.Range(30, 45)*n)
+	default:
+		if n == 4 {
+			base = splitVotePlays(r)
+		} else {
+			base = synthPlays(r, n, r.Range(14, 20))
+		}
+	}
+	plays, res := climbDeep(r, n, base, 12000, int(hg.COIN_ROUND_FREQ), want)
+	if res.last < 5 {
+		c.stats.probe("synthetic-deep-search-empty")
+		return false
+	}
+	d, ids := refFromPlays(n, plays)
+	res = d.deepElection(int(hg.COIN_ROUND_FREQ))
+	c.stats.probe("synthetic-deep-election-history")
+	c.stats.probeMax("synthetic-deep-election-undecided-distance-model", res.last)
+	c.execSynthStep(&Step{Op: "synth-init", N: n})
+	steps := c.playSteps(r, plays)
+	for i, s := range steps {
+		if ids[i] >= 0 {
+			if b, ok := res.bits[ids[i]]; ok {
+				s.Kind = "coin0"
+				if b {
+					s.Kind = "coin1"
+				}
+				if len(s.Tx) == 0 {
+					c.synTxn++
+					s.Tx = []byte(fmt.Sprintf("synth-%d", c.synTxn))
+				}
+			}
+		}
+		c.execSynthStep(s)
+	}
+	c.execSynthStep(&Step{Op: "synth-fair", N: deepFairCycles})
+	return true
 }
